@@ -6,6 +6,7 @@ import (
 	"errors"
 	"fmt"
 	"net/netip"
+	"strconv"
 
 	zz "github.com/AliyunContainerService/terway/internal/zzverif"
 	apiErr "github.com/AliyunContainerService/terway/pkg/aliyun/client/errors"
@@ -116,3 +117,57 @@ func ZZ_C07_inhibit_monotone() {
 // pool only after the cloud confirmed its removal; on failure it stays queued.
 // zz:noreplay the schedule is chosen by the engine
 func ZZ_C07_dispose_faults() { zzDisposeIteration() }
+
+// C07 (periodic sync against instance metadata): the snapshot of the
+// interface's addresses is taken and applied in one critical section of the
+// pool - an address that the allocation worker commits to the pool can
+// therefore never be missing from a snapshot that is applied after the
+// commit.  Arbitrary pool of three addresses, arbitrary metadata answer
+// (or failure): the pool lock is held at the instant of the metadata query and
+// is not released between query and application; the application marks
+// exactly the valid addresses missing from the answer; a failed query changes
+// nothing; an interface that is not in use is not synchronised at all.
+func ZZ_C07_sync_atomic() {
+	f := zzNewFactory(false)
+	l, slots := zzPool(3, 0, f)
+	zz.Assume(zzInv(slots))
+	l.status = []eniStatus{statusInUse, statusDeleting, statusInit}[zz.Fork("eni.status", 3)]
+	present := make([]bool, len(slots))
+	for i, s := range slots {
+		present[i] = zz.Bool("remote.has" + strconv.Itoa(i))
+		if present[i] {
+			f.load4 = append(f.load4, s.ip.ip)
+		}
+	}
+	f.loadOK = zz.Bool("metadata.answers")
+	lockAtQuery, queries := -1, 0
+	f.onLoad = func() {
+		queries++
+		lockAtQuery = zz.LockState(l.cond.L)
+	}
+	unlocksAfterQuery := 0
+	zz.OnUnlock(l.cond.L, func() {
+		if queries > 0 {
+			unlocksAfterQuery++
+		}
+	})
+	zz.FixedMapOrder(true)
+	l.sync()
+	zz.FixedMapOrder(false)
+	zz.OnUnlock(l.cond.L, nil)
+	zz.Assert(zz.LockState(l.cond.L) == 0, "the pool lock is released when the sync ends")
+	if l.status != statusInUse {
+		zz.Assert(queries == 0, "an interface that is not in use is not synchronised")
+	} else {
+		zz.Assert(queries == 1 && lockAtQuery != 0, "the metadata snapshot is taken with the pool lock held")
+		zz.Assert(unlocksAfterQuery == 1, "the lock is not released between taking the snapshot and applying it (no commit can fall in between)")
+	}
+	for i, s := range slots {
+		zz.Assert(s.ip.podID == s.owner, "the sync never changes an owner")
+		want := s.status
+		if l.status == statusInUse && f.loadOK && s.status == ipStatusValid && !present[i] {
+			want = ipStatusInvalid
+		}
+		zz.Assert(s.ip.status == want, "exactly the valid addresses missing from a successful snapshot are marked invalid; a failed query changes nothing")
+	}
+}
